@@ -69,6 +69,29 @@ class Runtime:
             return self.tok_by_task[t]
         return self.tok_by_thread.get(threading.get_ident())
 
+    def token_for_scheduler(self, pool: Any = None) -> Optional[int]:
+        """Token of the scheduler run the current task belongs to; a task that uses a pool created by an EARLIER run
+        (pool cached across calls) starts a new execution here."""
+        tok = self.cur_token()
+        if tok is not None:
+            return tok
+        try:
+            t = asyncio.current_task()
+        except RuntimeError:
+            t = None
+        if t is None:
+            return None
+        tok = self.n_tokens
+        self.n_tokens += 1
+        self.tok_by_task[t] = tok
+        self.tok_op[tok] = CUR_OP.get()
+        if pool is not None:
+            self.pools_by_tok.setdefault(tok, []).append(pool)
+        me = self.sim.me()
+        self.sim.ev("exec_begin", tok, CUR_OP.get(), getattr(pool, "max_workers", None), me.name if me else None)
+        self.probe("execution_on_reused_pool")
+        return tok
+
 
 RT: Optional[Runtime] = None
 
@@ -121,6 +144,9 @@ class SimPool(cf.Executor):
         rt = RT
         self.rt = rt
         self.max_workers = max_workers or 1
+        self._max_workers = self.max_workers     # attributes of the real ThreadPoolExecutor that callers sometimes peek at
+        self._shutdown = False
+        self._threads: set = set()
         self.items: List[dict] = []
         self.running = 0
         rt.pools.append(self)
@@ -167,24 +193,27 @@ class SimPool(cf.Executor):
         nid = node_of(fn)
         f.nid = nid
         is_async = isinstance(fn, functools.partial)
-        item = {"f": f, "started": False, "nid": nid}
+        tok = rt.token_for_scheduler(self)
+        if tok is None:
+            tok = self.token
+        item = {"f": f, "started": False, "nid": nid, "tok": tok}
         self.items.append(item)
-        unfinished = sum(1 for q in rt.pools_by_tok.get(self.token, [self]) for it in q.items if not it["f"].done())
+        unfinished = sum(1 for q in rt.pools_by_tok.get(tok, [self]) for it in q.items if not it["f"].done() and it.get("tok", tok) == tok)
         queued = sum(1 for it in self.items if not it["started"]) - 1
         if queued > 0:
             rt.probe("pool_queue_nonempty")
-        sim.ev("submit", self.token, nid, "async" if is_async else "thread", unfinished)
+        sim.ev("submit", tok, nid, "async" if is_async else "thread", unfinished)
 
         def body() -> None:
             if any(not it["started"] and not it["f"].cancelled() for it in pool.items[:pool.items.index(item)]):
                 rt.probe("F4_delayed_start_overtaken")
             item["started"] = True
             pool.running += 1
-            sim.tls.token = pool.token
-            sim.ev("start", pool.token, nid)
+            sim.tls.token = tok
+            sim.ev("start", tok, nid)
             if not f.set_running_or_notify_cancel():
                 pool.running -= 1
-                sim.ev("cancelled", pool.token, nid)
+                sim.ev("cancelled", tok, nid)
                 return
             try:
                 r = fn(*a, **k)
@@ -213,8 +242,8 @@ class SimPool(cf.Executor):
                         return False
             return False
 
-        sim.spawn(f"x{self.token}/{nid}", "item", body, pred=can_start, info=("start", self.token, nid))
-        sim.yield_("submit", info=("submit", self.token, nid))
+        sim.spawn(f"x{tok}/{nid}", "item", body, pred=can_start, info=("start", tok, nid))
+        sim.yield_("submit", info=("submit", tok, nid))
         return f
 
     def shutdown(self, wait: bool = True, *, cancel_futures: bool = False) -> None:
@@ -222,6 +251,7 @@ class SimPool(cf.Executor):
             return self._real.shutdown(wait, cancel_futures=cancel_futures)
         self.rt.sim.ev("exec_end", self.token)
         self.closed = True
+        self._shutdown = True
         if wait:
             self.rt.sim.yield_("pool-shutdown", pred=lambda: all(it["f"].done() for it in self.items),
                                info=("pool-shutdown", self.token))
@@ -336,6 +366,8 @@ def _task_factory(loop: Any, coro: Any, **kw: Any) -> Any:
     except RuntimeError:
         parent = None
     tok = rt.tok_by_task.get(parent) if parent is not None else None
+    if tok is not None:
+        rt.tok_by_task[t] = tok   # tasks spawned by a scheduler run belong to that execution
     frame = getattr(coro, "cr_frame", None)
     if tok is not None and frame is not None:
         nid = None
@@ -535,7 +567,7 @@ def install_post() -> Dict[str, Any]:
             tok = getattr(sim.tls, "token", None)
             inline = tok is None
             if inline:
-                tok = rt.cur_token()
+                tok = rt.token_for_scheduler()
             prev = getattr(sim.tls, "cur_node", None)
             sim.tls.cur_node = (tok, self.id)
             sim.ev("enter", tok, self.id, sim.me().name, inline)
